@@ -42,6 +42,16 @@ def trap_nest(rng, depth, signaller):
         body = rng.choice(POSITIONS).replace("{s}", f"(eval (trap {body} {h}))")
     return body
 
+def trap_object_nest(rng, depth, signaller):
+    """trap OBJECTS directly as the normal body of other traps (only make-trap can build these):
+    the inner trap is evaluated while the outer trap's frame is active"""
+    t = f"(trap {signaller} {rng.choice(['(signal (list *trapped-signal* 0))', '*trapped-signal*', '(car 7)', '(list (quote h0) *trapped-signal*)'])})"
+    for lvl in range(1, depth + 1):
+        h = rng.choice([f"(list 'h{lvl} *trapped-signal*)", f"(signal (list 'again{lvl} *trapped-signal*))", "*trapped-signal*", "(undefined-handler-fn)"])
+        body = rng.choice([t, t, t, "5", "()", "car", f"(lambda (x) {lvl})"]) if lvl == depth and rng.chance(1, 4) else t
+        t = f"(make-trap {body} '{h})"
+    return f"(eval {t})"
+
 def plist_ok(tree):
     items = dump.list_items(tree) if tree else None
     if items is None or len(items) % 2:
@@ -70,6 +80,26 @@ def run(tier, seed):
     for i in range(n):
         sg = rng.choice(SIGNALLERS).replace("{p}", rng.choice(PAYLOADS))
         progs.append(trap_nest(rng, rng.range(1, 8 if tier == "thorough" else 5), rng.choice(POSITIONS).replace("{s}", sg)))
+    for i in range(60 if tier == "quick" else 1000):
+        sg = rng.choice(SIGNALLERS).replace("{p}", rng.choice(PAYLOADS))
+        progs.append(trap_object_nest(rng, rng.range(1, 4), sg))
+    progs += ["(eval (make-trap (trap (signal 1) (signal (list *trapped-signal* 2))) '(list 'outer *trapped-signal*)))",
+              "(eval (make-trap 5 'h))", "(eval (make-trap () 'h))", "(eval (make-trap car 'h))", "(eval (make-trap (make-trap (trap (abort) 1) 2) 3))"]
+    # nests whose outcome the property itself dictates: every inner handler re-signals, the outermost returns
+    dictated = []
+    for depth in range(1, 5):
+        for sg in ["(signal 'boom)", "(car 5)", "unbound-var", "(throw 'kind 'k)"]:
+            for obj in (True, False):
+                if obj:
+                    t = f"(trap {sg} (signal (list 'lvl0 *trapped-signal*)))"
+                    for lvl in range(1, depth):
+                        t = f"(make-trap {t} '(signal (list 'lvl{lvl} *trapped-signal*)))"
+                    dictated.append(f"(eval (make-trap {t} '(list 'outermost *trapped-signal*)))")
+                else:
+                    t = f"(eval (trap {sg} (signal (list 'lvl0 *trapped-signal*))))"
+                    for lvl in range(1, depth):
+                        t = f"(eval (trap (list 1 {t}) (signal (list 'lvl{lvl} *trapped-signal*))))"
+                    dictated.append(f"(eval (trap (cons 0 {t}) (list 'outermost *trapped-signal*)))")
     # uncaught errors of the interpreter: every primitive with a wrong type at each position, wrong arity
     natives = [("cons", 2), ("car", 1), ("cdr", 1), (".", 2), ("append", 2), ("unrest", 1), ("read", 4), ("make-trap", 2), ("make-function", 5),
                ("call-native-function", 3), ("macroexpand", 1), ("eval", 1), ("load-all", 2), ("print", 1), ("add", 2), ("substract", 2), ("multiply", 2), ("divide", 2),
@@ -89,8 +119,17 @@ def run(tier, seed):
                     continue          # would touch the file system, which the model does not cover
                 errprogs.append(f"({name} {' '.join(args)})")
     errprogs += ["(define 'zz 1 \"\") (define 'zz 2 \"\")", "(last nil)", "(read-simple \"(\")", "(unzip-list '(1))", "(let (a) a)", "(f)", "((lambda (x)))", "(lambda (&) 1)", "(lambda (x & y z) 1)"]
-    sets = [ProgramSet("nests", progs), ProgramSet("errors", errprogs)]
+    sets = [ProgramSet("nests", progs), ProgramSet("errors", errprogs), ProgramSet("dictated", dictated)]
     run_sets(rep, sets)
+    # monitor: the signal of each inner handler reaches the next enclosing trap; the outermost handler's value is the result
+    for i, r in enumerate(sets[2].parsed):
+        st, d = last_result(r)
+        t = result_tree(r)
+        items = dump.list_items(t) if (t is not None and st == "ok") else None
+        if not items or dump.strip_meta(items[0]) != ("sym", "outermost"):
+            rep.violation("a signal did not reach the enclosing trap (or its payload was lost): " + dictated[i], {"program": dictated[i], "observed": sets[2].answers[i][:400], "expected": "(outermost <the signal of the handler below>)"})
+            if len(rep.violations) >= 3:
+                break
     crashes_and_hangs(rep, sets, hang_is_violation=False)
     # monitor: every signal the interpreter itself raised is a plist with kind and source
     nonplist = 0
